@@ -3,6 +3,8 @@ use crate::ev::Tier;
 use std::path::PathBuf;
 
 pub mod c09;
+pub mod c10;
+pub mod c14;
 
 #[derive(Clone, Debug)]
 pub struct Ctx {
@@ -23,6 +25,8 @@ pub fn replay_files(id: &str) -> Vec<PathBuf> {
 pub fn run(id: &str, ctx: &Ctx) -> i32 {
     match id {
         "C09" => c09::run(ctx),
+        "C10" => c10::run(ctx),
+        "C14" => c14::run(ctx),
         _ => {
             eprintln!("unknown property {id}");
             2
